@@ -34,6 +34,7 @@ import (
 	"os"
 	"sort"
 	"strings"
+	"time"
 
 	"github.com/zclconf/go-cty/cty"
 	"github.com/zclconf/go-cty/cty/convert"
@@ -428,7 +429,7 @@ func exploreSchedules(u *U, sc *schedScenario, solo []string, fp0 map[string]str
 	complete = true
 	var rec func(ds []directive, cost int)
 	rec = func(ds []directive, cost int) {
-		if st.executions >= budgetExec || u.c.Stopped() {
+		if st.executions >= budgetExec || u.c.Stopped() || (st.executions%64 == 0 && u.c.OnlyUnit < 0 && time.Now().After(u.c.deadline)) {
 			complete = false
 			return
 		}
@@ -688,6 +689,9 @@ func runC20S(c *Ctx) {
 			switch {
 			case special:
 				bound = 2
+				if total > bound2Limit*4 {
+					bound = 1
+				}
 				u.Class("scenario-with-writes-or-synchronisation")
 			case total <= bound2Limit && len(sc.bodies) == 2:
 				bound = 2
